@@ -436,6 +436,10 @@ Definition evaluate (c : caps) (t : tbl) (i : insn) : res (bool * tbl) :=
   | INop => Ok (false, t)
   end.
 
+(* `Ok(Some(self.ctx.row()))` *)
+Definition some_row (cx : ctx) : res (option row) :=
+  match top cx with Ok r => Ok (Some r) | Err e => Err e | Panic => Panic | OutOfFuel => OutOfFuel end.
+
 (* the `loop` of UnwindTable::next_row. Every iteration consumes at least one byte of
    the instruction stream or returns, so fuel = S (remaining bytes) suffices (theorem). *)
 Fixpoint next_row_loop (fuel : nat) (dbg : bool) (c : caps) (d : dparams) (t : tbl) (it : cfi_iter)
@@ -452,8 +456,7 @@ Fixpoint next_row_loop (fuel : nat) (dbg : bool) (c : caps) (d : dparams) (t : t
           match with_top (set_end (t_last_end t)) (t_ctx t) with
           | Ok cx =>
               let t1 := with_flags true true (with_ctx cx t) in
-              (match top cx with Ok r => Ok (Some r) | Err e => Err e | Panic => Panic | OutOfFuel => OutOfFuel end,
-               (t1, it'))
+              (some_row cx, (t1, it'))
           | Err e => (Err e, (t, it'))
           | Panic => (Panic, (t, it'))
           | OutOfFuel => (OutOfFuel, (t, it'))
@@ -462,8 +465,7 @@ Fixpoint next_row_loop (fuel : nat) (dbg : bool) (c : caps) (d : dparams) (t : t
           match evaluate c t i with
           | Ok (true, t1) =>
               let t2 := with_flags (t_returned_last t1) true t1 in
-              (match top (t_ctx t2) with Ok r => Ok (Some r) | Err e => Err e | Panic => Panic | OutOfFuel => OutOfFuel end,
-               (t2, it'))
+              (some_row (t_ctx t2), (t2, it'))
           | Ok (false, t1) => next_row_loop f dbg c d t1 it'
           | Err e => (Err e, (t, it'))
           | Panic => (Panic, (t, it'))
